@@ -58,7 +58,8 @@ CLAIMS = {
         "theorems RoundTrip, MinimalHeader, TruncationsRejected, ReadOneConsumesOne, and header + size arithmetic over abstract lengths up to 65537; TLC checks "
         "the theorems on every case and exports the spec's value (incl. the verdict for every truncation and +-1 length-byte change); every case is replayed "
         "through KSI_TLV (parse, nested lists, serialize, clone, writeBytes into buffers of needed size -2..+5), KSI_TlvElement and the KSI_FTLV memory, file and "
-        "socket readers.",
+        "socket readers; StreamRead(tag, len, buf) states when a stream reader with a buf-byte buffer delivers the element at the head of the stream (iff header + "
+        "payload fit; exactly its bytes consumed; at most the header consumed on refusal) and is replayed with buffers below, at and above each element size.",
    note="Bounds: tags {1,31,32,8191} x flags x payloads, nodes with <=2 children, depth 2 in thorough; header cases tags x lengths {0..65537}; two-child sizes around 65535; 256 first bytes x all second bytes in TLC (5 sampled in replay). Defect F-C09-1 fixed.",
    technique="TLC-checked TLA+ codec specification; exhaustive TLC-generated case tables replayed into the three libksi codecs"),
  "C01": dict(level="model_checking", design_ref="DESIGN.md 4/C01",
@@ -112,7 +113,7 @@ CLAIMS = {
         "over the real blocking TCP client and the real asynchronous service on scripted sockets with replies built by the independent reference aggregator; "
         "the request on the wire must carry hash, level, login id unchanged and a correct HMAC; success must coincide with the spec's result and the returned "
         "signature must be for the requested hash and level.",
-   note="quick: all single deviations + 400 sampled double deviations; thorough: all 1.6e3 behaviours. HTTP (libcurl) transport and the block signer are not bound. The SDK adds the requested level to the reply's first level correction itself (so there is no 'lower level' reply).",
+   note="quick: all single deviations + 400 sampled double deviations; thorough: all 1.6e3 behaviours. Also replayed over the blocking HTTP client on a scripted libcurl (HTTP status and transport errors included); the async curl_multi client and the block signer are not bound. The SDK adds the requested level to the reply's first level correction itself (so there is no 'lower level' reply).",
    technique="TLC model checking of the protocol + replay of all TLC behaviours into the real signing calls on scripted sockets"),
  "C08": dict(level="model_checking", design_ref="DESIGN.md 4/C08",
    text="SignExtend.tla models extending (signatures with/without calendar chain, publication or authentication record x targets head / equal / later / earlier / "
@@ -132,7 +133,7 @@ CLAIMS = {
         "deviation as every single-bit flip in that region -- and fed to the real blocking client (sign, extend, aggregator and extender config), async service and HA "
         "service on scripted sockets. Requests written by every transport for six login/key pairs (keys below, at and above the HMAC block size) and several algorithms "
         "are parsed independently and their MAC recomputed; libksi's HMAC construction is compared with RFC 2104 (Python hmac) for every algorithm of the build.",
-   note="quick: every bit of every region of a signing reply on the blocking client, every 3rd payload bit for the other kinds, every 5th payload bit on async/HA; thorough: every bit everywhere. HTTP transport not bound; v1 only as 'other version rejected'.",
+   note="quick: every bit of every region of a signing reply on the blocking client, every 3rd payload bit for the other kinds, every 5th payload bit on async/HA; thorough: every bit everywhere. The blocking HTTP client is bound on a scripted libcurl (class Http); the async curl_multi client is not; v1 only as 'other version rejected'.",
    technique="TLC-checked PDU authentication model + exhaustive per-bit replay of its deviation cases into the real clients; independent recomputation of request MACs"),
  "C18": dict(level="model_checking", design_ref="DESIGN.md 4/C18",
    text="PubFile.tla defines declaratively which record sequences form a publications file (Accept), the signed range (SignedRecords), when a file is Trusted "
@@ -143,7 +144,7 @@ CLAIMS = {
         "builder and a test CA generated on the spot (own DER encoder, openssl CLI for RSA / PKCS#7) and given to KSI_PublicationsFile_parse, "
         "_getSignedDataLength, _verify / KSI_verifyPublicationsFile and the lookup functions; every accepted structure is also signed over the spec's range and "
         "must verify. Byte alterations cover the signed range, the signature value and the embedded signer certificate.",
-   note="quick: sequences <= 4 records, every 7th octet of altered regions, publication lists <= 2; thorough: <= 6 records, every octet, lists <= 3. Download of the file (HTTP) is not bound.",
+   note="quick: sequences <= 4 records, every 7th octet of altered regions, publication lists <= 3 in every order; thorough: <= 6 records, every octet, lists <= 4. Download of the file over HTTP is exercised by C04 (pfsrc), not here.",
    technique="TLC enumeration of a declarative publications-file model + replay of every case into the real parser / PKI verification / lookups with independently built, really signed files"),
  "C04": dict(level="model_checking", design_ref="DESIGN.md 4/C04",
    text="AnchorPolicy.tla transcribes the rule trees of the calendar-based, key-based, publications-file, user-publication and general policies (policy.c) as data, gives "
